@@ -1818,7 +1818,17 @@ class Rule(metaclass=LogicalType):
             return value
 
         contains = 0
-        for i, item in enumerate(value):
+        try:
+            items = list(value)
+        except TypeError as e:
+            # a rule without origin can receive anything: a value that cannot be iterated contains nothing
+            context.handle_error(
+                exc.ConstraintError(
+                    origin_exc=e, constraint="contains", constraint_value=cls.contains
+                )
+            )
+            return value
+        for i, item in enumerate(items):
             with context.enter(route=i) as item_context:
                 try:
                     item_context.transformer(item, cls.contains)
